@@ -1,7 +1,7 @@
 (* Request decoding / result encoding for the extracted model runner.
    dispatch <component> <request> : val.  Definitions only. *)
 From Verif Require Import Base.Tactics Base.ZList Base.Val.
-From Verif Require Import Model.BufReaderModel.
+From Verif Require Import Model.BufReaderModel Model.RangeModel.
 
 (* ---- C20 ---- request: (file off bs maxb (size?) mode ops) *)
 Definition c20_op (v : val) : op :=
@@ -24,6 +24,41 @@ Definition c20_run (v : val) : val :=
   if mode =? 1 then VL (map c20_out (run file (data_geom file) (init_data file) ops))
   else VL (map c20_out (run file g (init_state sz) ops)).
 
+(* ---- C13 ---- request: (mode len (h?))   mode 0 get_http_range, 1 segment, 2 on-demand
+   the resource is [0;1;..;len-1] so that a body is described by (first, length, is_run) *)
+Fixpoint iota_from (n : nat) (start : Z) : list Z :=
+  match n with O => [] | S k => start :: iota_from k (start + 1) end.
+Fixpoint is_run (l : list Z) : bool :=
+  match l with
+  | a :: ((b :: _) as r) => (b =? a + 1) && is_run r
+  | _ => true
+  end.
+Definition c13_body (b : list Z) : val :=
+  VL [VI (match b with x :: _ => x | [] => 0 end); VI (zlen b); vbool (is_run b)].
+Definition c13_cr (c : crange) : val :=
+  match c with
+  | CRnone => VL []
+  | CRrange a b len => VL [VI a; VI b; VI len]
+  | CRstar len => VL [VI len]
+  end.
+Definition c13_resp (r : resp) : val :=
+  match r with
+  | Crash => VL [VI (-1)]
+  | Resp st body cr => VL [VI st; c13_body body; c13_cr cr]
+  end.
+Definition c13_run (v : val) : val :=
+  let mode := vint (vnth 0 v) in
+  let len := vint (vnth 1 v) in
+  let h := match vnth 2 v with VL [VL codes] => Some (map vint codes) | _ => None end in
+  if mode =? 0 then
+    match get_http_range pyint_latin1 len h with
+    | RNone => VL [VI 0] | RBad => VL [VI 1]
+    | R206 a b => VL [VI 2; VI a; VI b] | R416 a b => VL [VI 3; VI a; VI b]
+    end
+  else if mode =? 1 then c13_resp (serve_segment pyint_latin1 (iota_from (Z.to_nat len) 0) h)
+  else c13_resp (serve_ondemand pyint_latin1 (iota_from (Z.to_nat len) 0) h).
+
 Definition dispatch (comp : Z) (v : val) : val :=
   if comp =? 20 then c20_run v
+  else if comp =? 13 then c13_run v
   else verr 999.
